@@ -889,3 +889,245 @@ Proof.
   - tauto.
   - exact Hp.
 Qed.
+
+(* ------------------------------------------------------------------------------------------ *)
+(* Part 6: the tail of Request::close                                                          *)
+(* ------------------------------------------------------------------------------------------ *)
+
+(* -- the read side never touches the write side -- *)
+Lemma t_poll_read_spec L w p w' : t_poll_read L w = (p, w') ->
+  wlog w' = wlog w /\ wscript w' = wscript w /\ vectored w' = vectored w /\
+  (forall k, p = PReady (inr k) -> k = EK_Transport).
+Proof.
+  unfold t_poll_read. intros E.
+  repeat match type of E with
+  | (if ?c then _ else _) = _ => destruct c
+  | (match ?x with _ => _ end) = _ => destruct x
+  end; injection E as <- <-; (split; [reflexivity|]); (split; [reflexivity|]); (split; [reflexivity|]);
+    intros k' Hk; try discriminate Hk; injection Hk as <-; reflexivity.
+Qed.
+
+Lemma await_read_spec fuel : forall sel L w x w', await_read fuel sel L w = Ok x w' ->
+  wlog w' = wlog w /\ wscript w' = wscript w /\ (forall k, x = inr k -> k = EK_Transport).
+Proof.
+  induction fuel as [|f IH]; intros sel L w x w' E; [discriminate E|].
+  cbn [await_read] in E. destruct (t_poll_read L w) as [p w1] eqn:ET.
+  apply t_poll_read_spec in ET. destruct ET as (T1 & T2 & _ & T4).
+  destruct p as [a| |].
+  - injection E as <- <-. split; [exact T1|]. split; [exact T2|]. intros k Hk. apply T4. rewrite Hk. reflexivity.
+  - unfold on_wake in E. destruct (sel && stopped (w_bump w1)); [discriminate E|].
+    apply IH in E. change (wlog (w_bump w1)) with (wlog w1) in E. change (wscript (w_bump w1)) with (wscript w1) in E.
+    rewrite T1, T2 in E. exact E.
+  - unfold on_block in E. destruct (negb (stop_at w1 =? 0) && negb (stopped w1)); [|discriminate E].
+    destruct sel; [discriminate E|].
+    apply IH in E. change (wlog (w_stop w1)) with (wlog w1) in E. change (wscript (w_stop w1)) with (wscript w1) in E.
+    rewrite T1, T2 in E. exact E.
+Qed.
+
+Section Close.
+Variable maxc : N.
+
+(* error kinds record_boundary can report *)
+Definition rb_kinds : list N := [EK_Other; EK_Aborted; EK_UnexpectedEof; EK_InvalidData; EK_Transport].
+
+Lemma perr_kind_rb e : In (perr_kind e) rb_kinds.
+Proof. destruct e; cbn [perr_kind rb_kinds In]; tauto. Qed.
+
+Definition bl_after (f : nat) (r : rstate) (w : world) (p' : sp) : res (option N * rstate) :=
+  let r1 := mkR p' (rwriteable r) (rlock r) in
+  if is_record_boundary p' then Ok (None, r1) w
+  else
+    let p2 := compress p' in
+    let r2 := mkR p2 (rwriteable r) (rlock r) in
+    match await_read (io_fuel w 0) false (sinput_space p2) w with
+    | Ok (inl []) w' => Ok (Some EK_UnexpectedEof, r2) w'
+    | Ok (inl b) w' => boundary_loop maxc f b r2 w'
+    | Ok (inr k) w' => Ok (Some k, r2) w'
+    | Halt o w' => Halt o w'
+    end.
+
+Lemma boundary_loop_S f new r w : boundary_loop maxc (S f) new r w =
+  match sparse maxc (rsp r) new None with
+  | StPanic n => Halt (OPanic (1000 + n)) w
+  | StOk p' _ => bl_after f r w p'
+  | StErr p' EAbortRequest _ => bl_after f r w p'
+  | StErr p' e _ => Ok (Some (perr_kind e), mkR p' (rwriteable r) (rlock r)) w
+  end.
+Proof. reflexivity. Qed.
+
+Definition rb_post (r : rstate) (w : world) (e : option N) (r' : rstate) (w' : world) : Prop :=
+  wlog w' = wlog w /\ wscript w' = wscript w /\ rwriteable r' = rwriteable r /\ rlock r' = rlock r /\
+  match e with None => is_record_boundary (rsp r') = true | Some k => In k rb_kinds end.
+
+Lemma boundary_loop_spec fuel : forall new r w e r' w',
+  boundary_loop maxc fuel new r w = Ok (e, r') w' -> rb_post r w e r' w'.
+Proof.
+  induction fuel as [|f IH]; intros new r w e r' w' E; [discriminate E|].
+  rewrite boundary_loop_S in E.
+  assert (Hafter : forall p', bl_after f r w p' = Ok (e, r') w' -> rb_post r w e r' w').
+  { intros p' Ea. unfold bl_after in Ea. cbv zeta in Ea.
+    destruct (is_record_boundary p') eqn:Eb.
+    - injection Ea as <- <- <-. unfold rb_post. cbn [rsp rwriteable rlock]. repeat split; exact Eb.
+    - destruct (await_read (io_fuel w 0) false (sinput_space (compress p')) w) as [[b|k] w1|o w1] eqn:ER;
+        [| |discriminate Ea].
+      + apply await_read_spec in ER. destruct ER as (R1 & R2 & _). destruct b as [|x b'].
+        * injection Ea as <- <- <-. unfold rb_post. cbn [rsp rwriteable rlock rb_kinds In].
+          repeat split; try assumption. tauto.
+        * apply IH in Ea. unfold rb_post in *. cbn [rsp rwriteable rlock] in Ea.
+          rewrite R1, R2 in Ea. exact Ea.
+      + apply await_read_spec in ER. destruct ER as (R1 & R2 & R3). specialize (R3 k eq_refl). subst k.
+        injection Ea as <- <- <-. unfold rb_post. cbn [rsp rwriteable rlock rb_kinds In].
+        repeat split; try assumption. tauto. }
+  destruct (sparse maxc (rsp r) new None) as [p' s|p' pe s|n]; [apply (Hafter p'); exact E| |discriminate E].
+  destruct pe; try (apply (Hafter p'); exact E);
+    injection E as <- <- <-; unfold rb_post; cbn [rsp rwriteable rlock];
+    (repeat split; try reflexivity); unfold rb_kinds; cbn [In]; tauto.
+Qed.
+
+Lemma record_boundary_spec r w e r' w' : record_boundary maxc r w = Ok (e, r') w' -> rb_post r w e r' w'.
+Proof.
+  unfold record_boundary. destruct (is_record_boundary (rsp r)) eqn:Eb.
+  - intros E. injection E as <- <- <-. unfold rb_post. repeat split; exact Eb.
+  - apply boundary_loop_spec.
+Qed.
+
+(* -- what follows record_boundary in close -- *)
+Definition close_p4 (r3 : rstate) : sp :=
+  match output_buffer (rsp r3) with [] => rsp r3 | _ => consume_output (rsp r3) (len (output_buffer (rsp r3))) end.
+
+Definition close_finish (r3 : rstate) (disc code : N) (w2 : world) : res (parser + N) :=
+  match epilogue (r_id (sreq (rsp r3))) disc code (if rwriteable r3 then ROLE_OUTPUT_STREAMS else []) with
+  | None => Halt (OPanic 61) w2
+  | Some ep =>
+    let out := output_buffer (rsp r3) in
+    match await_write_all (io_fuel w2 (len out)) false out w2 with
+    | Halt o w' => Halt o w'
+    | Ok (Some k3) w3 => Ok (inr k3) w3
+    | Ok None w3 =>
+      match await_write_all (io_fuel w3 (len ep)) false ep w3 with
+      | Halt o w' => Halt o w'
+      | Ok (Some k4) w4 => Ok (inr k4) w4
+      | Ok None w4 =>
+        if N.land (r_flags (sreq (close_p4 r3))) FLAG_KeepConn =? FLAG_KeepConn then
+          match into_request_parser (close_p4 r3) with
+          | ConvOk rp => Ok (inl rp) w4
+          | ConvInterrupted => Ok (inr EK_Other) w4
+          | ConvPanic => Halt (OPanic 62) w4
+          end
+        else Ok (inr EK_Reset) w4
+      end
+    end
+  end.
+
+Lemma close_tail_unfold r1 disc code w1 : close_tail maxc r1 disc code w1 =
+  match set_stream (rsp r1) None with
+  | SetOk p2 =>
+    match record_boundary maxc (mkR p2 (rwriteable r1) (rlock r1)) w1 with
+    | Halt o w' => Halt o w'
+    | Ok (Some k2, _) w2 => Ok (inr k2) w2
+    | Ok (None, r3) w2 => close_finish r3 disc code w2
+    end
+  | _ => Halt (OPanic 63) w1
+  end.
+Proof. reflexivity. Qed.
+
+Lemma close_p4_spec r3 : sp_same_but_output (rsp r3) (close_p4 r3) /\ output_buffer (close_p4 r3) = [] /\
+  (RI (rsp r3) -> output (close_p4 r3) = []).
+Proof.
+  unfold close_p4. destruct (output_buffer (rsp r3)) as [|x o] eqn:Eo.
+  - split; [apply sp_same_refl|]. split; [exact Eo|]. intros (_ & _ & _ & _ & R5 & R6). apply R6.
+    unfold output_buffer in Eo. apply (f_equal len) in Eo. rewrite len_drop, len_nil in Eo. lia.
+  - split; [apply consume_output_same|]. split; [rewrite consume_output_buffer, Eo; apply drop_all; lia|].
+    intros _. unfold consume_output. unfold output_buffer in Eo. apply (f_equal len) in Eo. rewrite len_drop in Eo.
+    destruct (N.leb_spec (len (output (rsp r3)) - output_start (rsp r3)) (len (x :: o))) as [H|H]; [reflexivity|lia].
+Qed.
+
+(* the full account of close after the record boundary was reached *)
+Definition cf_post (r3 : rstate) (w2 : world) (ep : bytes) (x : res (parser + N)) : Prop :=
+  let total := output_buffer (rsp r3) ++ ep in
+  match x with
+  | Ok (inl rp) w' => io_rel w2 w' total /\ into_request_parser (close_p4 r3) = ConvOk rp /\
+      N.land (r_flags (sreq (rsp r3))) FLAG_KeepConn = FLAG_KeepConn
+  | Ok (inr k) w' =>
+      (io_rel w2 w' total /\
+         ((k = EK_Reset /\ N.land (r_flags (sreq (rsp r3))) FLAG_KeepConn <> FLAG_KeepConn) \/
+          (k = EK_Other /\ is_record_boundary (rsp r3) = false))) \/
+      ((k = EK_WriteZero \/ k = EK_Transport) /\ ~ no_fault (wscript w2) /\
+         exists b1 b2, total = b1 ++ b2 /\ b2 <> [] /\ io_rel w2 w' b1)
+  | Halt (OPanic 62) w' => io_rel w2 w' total /\ ~ RI (rsp r3)
+  | Halt _ _ => False
+  end.
+
+Theorem close_finish_spec r3 disc code w2 :
+  match epilogue (r_id (sreq (rsp r3))) disc code (if rwriteable r3 then ROLE_OUTPUT_STREAMS else []) with
+  | None => close_finish r3 disc code w2 = Halt (OPanic 61) w2
+  | Some ep => cf_post r3 w2 ep (close_finish r3 disc code w2)
+  end.
+Proof.
+  unfold close_finish.
+  destruct (epilogue (r_id (sreq (rsp r3))) disc code (if rwriteable r3 then ROLE_OUTPUT_STREAMS else [])) as [ep|];
+    [|reflexivity].
+  cbv zeta. set (out := output_buffer (rsp r3)).
+  assert (Hfail : forall k w', wpost false (out ++ ep) w2 (Ok (Some k) w') -> cf_post r3 w2 ep (Ok (inr k) w')).
+  { intros k w' (b1 & b2 & Hb & Hne & Hio & Hk). unfold cf_post. cbv zeta. fold out. right.
+    split; [eapply fault_of_kind; exact Hk|]. split; [intros Hn; eapply no_fault_not_fault; eassumption|].
+    exists b1, b2. tauto. }
+  assert (Hhalt : forall o w', wpost false (out ++ ep) w2 (Halt o w') -> o <> OFuel -> cf_post r3 w2 ep (Halt o w')).
+  { intros o w' H Ho. destruct o; cbn [wpost] in H; try tauto. destruct H as [H _]. discriminate H. }
+  pose proof (await_write_all_post (io_fuel w2 (len out)) false out w2) as H1.
+  pose proof (fun w' => await_write_all_io_fuel false out w2 (len out) w' (N.le_refl _)) as F1.
+  destruct (await_write_all (io_fuel w2 (len out)) false out w2) as [[k3|] w3|o w3].
+  - apply Hfail. apply wpost_ext; [discriminate|exact H1].
+  - cbn [wpost] in H1.
+    pose proof (await_write_all_post (io_fuel w3 (len ep)) false ep w3) as H2.
+    pose proof (fun w' => await_write_all_io_fuel false ep w3 (len ep) w' (N.le_refl _)) as F2.
+    apply (wpost_pre false out ep w2 w3 _ H1) in H2.
+    destruct (await_write_all (io_fuel w3 (len ep)) false ep w3) as [[k4|] w4|o w4].
+    + apply Hfail. exact H2.
+    + cbn [wpost] in H2. destruct (close_p4_spec r3) as (Hsame & Hob & Hri).
+      destruct (sp_same_views _ _ Hsame) as (_ & _ & _ & Hb & _ & Hrq). rewrite Hrq.
+      destruct (N.eqb_spec (N.land (r_flags (sreq (rsp r3))) FLAG_KeepConn) FLAG_KeepConn) as [Hk|Hk].
+      * destruct (into_request_parser (close_p4 r3)) as [rp| |] eqn:EC.
+        -- unfold cf_post. cbv zeta. fold out. tauto.
+        -- unfold cf_post. cbv zeta. fold out. left. split; [exact H2|]. right. split; [reflexivity|].
+           unfold into_request_parser in EC. rewrite Hb in EC.
+           destruct (is_record_boundary (rsp r3)); [|reflexivity]. cbn [negb] in EC.
+           destruct (negb (len (output (close_p4 r3)) =? 0)); discriminate EC.
+        -- unfold cf_post. cbv zeta. fold out. split; [exact H2|]. intros HRI. specialize (Hri HRI).
+           unfold into_request_parser in EC. rewrite Hri in EC.
+           destruct (negb (is_record_boundary (close_p4 r3))); [discriminate EC|].
+           change (len (@nil N) =? 0) with true in EC. cbn [negb] in EC. discriminate EC.
+      * unfold cf_post. cbv zeta. fold out. left. split; [exact H2|]. left. split; [reflexivity|exact Hk].
+    + apply Hhalt; [exact H2|]. intros ->. eapply F2. reflexivity.
+  - apply Hhalt; [apply wpost_ext; [discriminate|exact H1]|]. intros ->. eapply F1. reflexivity.
+Qed.
+
+(* item 6: Request::close, no I/O error *)
+Theorem close_tail_log r1 disc code w1 x w' :
+  close_tail maxc r1 disc code w1 = Ok x w' -> (x = inr EK_Reset \/ exists rp, x = inl rp) ->
+  exists p2 r3 w2 ep,
+    set_stream (rsp r1) None = SetOk p2 /\
+    record_boundary maxc (mkR p2 (rwriteable r1) (rlock r1)) w1 = Ok (None, r3) w2 /\
+    wlog w2 = wlog w1 /\ rwriteable r3 = rwriteable r1 /\ is_record_boundary (rsp r3) = true /\
+    epilogue (r_id (sreq (rsp r3))) disc code (if rwriteable r1 then ROLE_OUTPUT_STREAMS else []) = Some ep /\
+    wlog w' = wlog w2 ++ output_buffer (rsp r3) ++ ep /\ same_but_io w2 w'.
+Proof.
+  rewrite close_tail_unfold. intros E Hx.
+  destruct (set_stream (rsp r1) None) as [p2| |]; [|discriminate E|discriminate E].
+  destruct (record_boundary maxc (mkR p2 (rwriteable r1) (rlock r1)) w1) as [[[k2|] r3] w2|o w2] eqn:ERB;
+    [| |discriminate E].
+  - exfalso. apply record_boundary_spec in ERB. destruct ERB as (_ & _ & _ & _ & Hk).
+    injection E as <- <-. destruct Hx as [Hx|[rp Hx]]; [|discriminate Hx]. injection Hx as ->.
+    cbn [rb_kinds In] in Hk. vm_compute in Hk. intuition discriminate.
+  - pose proof (record_boundary_spec _ _ _ _ _ ERB) as (B1 & B2 & B3 & B4 & B5).
+    cbn [rwriteable rlock] in B3, B4.
+    pose proof (close_finish_spec r3 disc code w2) as H. rewrite B3 in H.
+    destruct (epilogue (r_id (sreq (rsp r3))) disc code (if rwriteable r1 then ROLE_OUTPUT_STREAMS else [])) as [ep|] eqn:Eep.
+    + exists p2, r3, w2, ep. split; [reflexivity|]. split; [exact ERB|]. split; [exact B1|]. split; [exact B3|].
+      split; [exact B5|]. split; [exact Eep|]. rewrite E in H. unfold cf_post in H. cbv zeta in H.
+      destruct Hx as [Hx|[rp Hx]]; subst x.
+      * destruct H as [[H _]|[[Hk|Hk] _]]; [split; apply H|vm_compute in Hk; discriminate Hk|vm_compute in Hk; discriminate Hk].
+      * destruct H as [H _]. split; apply H.
+    + rewrite H in E. discriminate E.
+Qed.
+End Close.
